@@ -3,6 +3,8 @@ import DurableModel
 import DriverLib.SerdesGlue
 import DriverLib.BatcherGlue
 import DriverLib.PureGlue
+import DriverLib.EngineGlue
+import DriverLib.WireGlue
 /-! JSON glue between the line protocol and the model's executable definitions (trusted). -/
 open Lean
 
@@ -86,6 +88,8 @@ def handle (c : String) (j : Json) : Json :=
   else if c.startsWith "lock." then handleLock c j
   else if c.startsWith "serdes." then SerdesGlue.handle c j
   else if c.startsWith "batcher." then BatcherGlue.handle c j
+  else if c.startsWith "engine." then EngineGlue.handle c j
+  else if c.startsWith "wire." then WireGlue.handle c j
   else if c.startsWith "policy." || c.startsWith "strategy." || c.startsWith "outcome." then PureGlue.handle c j
   else err ("unknown-component " ++ c)
 
